@@ -50,24 +50,19 @@ rep!(c14_replace_3, 3, 5);
 rep!(c14_replace_4, 4, 6);
 rep!(c14_replace_5, 5, 7);
 
-/// NormalizedReader over a source of N bytes: filler 'a' except the bytes in the window
-/// [W0, W0+WN) which are symbolic (placed around the 512-byte internal buffer edge).
-/// Output must equal the reference canonical form: identity on the filler prefix, canon(tail).
-fn reader_edge<const N: usize, const W0: usize, const WN: usize, const OUT: usize>() {
-    let mut src = [b'a'; N];
-    let win: [u8; WN] = kani::any();
-    let mut i = 0;
-    while i < WN {
-        src[W0 + i] = win[i];
-        i += 1;
-    }
+/// NormalizedReader over every source of N arbitrary bytes, in a build where the reader's internal buffer is
+/// scaled from 512 to 4 octets (run.py substitution `BUF_SIZE = 1024` -> `8`; the buffer-edge logic is
+/// written in terms of BUF_SIZE, so the CR|LF-across-the-edge and trailing-CR cases occur at offset 4
+/// instead of 512).  Output must equal the byte-at-a-time reference.
+fn reader_case<const N: usize, const OUT: usize>() {
+    assert!(BUF_SIZE == 8, "scaled build expected");
+    let src: [u8; N] = kani::any();
     let mut rd = NormalizedReader::new(&src[..], LineBreak::Crlf);
     let mut out = [0u8; OUT];
     let mut n = 0;
     let mut calls = 0;
     loop {
-        let r = okf(rd.read(&mut out[n..]));
-        match r {
+        match okf(rd.read(&mut out[n..])) {
             None => {
                 assert!(false, "C14 reader: error on an in-memory source");
                 return;
@@ -76,29 +71,21 @@ fn reader_edge<const N: usize, const W0: usize, const WN: usize, const OUT: usiz
             Some(k) => n += k,
         }
         calls += 1;
-        assert!(calls <= N / 512 + 3, "C14 reader: too many reads");
+        assert!(calls <= N / 4 + 3, "C14/C09 reader: too many reads");
     }
-    // reference: prefix [0, W0) is filler -> unchanged; then canon(window) ; then filler
     let mut exp = Pack::<1>::default();
-    ref_canon(&win[..], false, &mut exp);
-    let tail = N - W0 - WN;
-    kani::cover!(win[0] == b'\r' && WN > 1 && win[1] == b'\n', "CR LF straddling / at the window start");
-    kani::cover!(win[WN - 1] == b'\n', "LF at the window end");
-    assert!(n == W0 + exp.len + tail, "C14 reader: canonical length differs from reference");
-    let got = Pack::<1>::of12(&out[W0..W0 + exp.len]);
-    assert!(got.same(&exp), "C14 reader: canonical bytes of the edge window differ from reference");
-    // filler before and after is unchanged
-    assert!(W0 == 0 || (out[0] == b'a' && out[W0 - 1] == b'a'), "C14 reader: prefix changed");
-    assert!(tail == 0 || out[n - 1] == b'a', "C14 reader: suffix changed");
+    ref_canon(&src[..], false, &mut exp);
+    if N >= 5 {
+        kani::cover!(src[3] == b'\r' && src[4] == b'\n', "CR | LF straddling the internal buffer edge");
+    }
+    if N == 4 {
+        kani::cover!(src[3] == b'\r', "source ends with CR exactly at the buffer edge");
+    }
+    assert!(n == exp.len, "C14 reader: canonical length differs from reference");
+    let got = Pack::<1>::of12(&out[..n]);
+    assert!(got.same(&exp), "C14 reader: canonical bytes differ from reference");
     core::mem::forget(rd);
 }
-
-// window of 3 symbolic bytes at offsets 510..513 of a 514-byte source (edge of the first buffer)
-vproof!(c14_reader_edge_514, 520, { reader_edge::<514, 510, 3, 540>() });
-// source exactly one buffer long, window at its end
-vproof!(c14_reader_edge_512, 520, { reader_edge::<512, 509, 3, 540>() });
-// short source
-vproof!(c14_reader_small_3, 5, { reader_edge::<3, 0, 3, 8>() });
-vproof!(c14_reader_small_4, 6, { reader_edge::<4, 0, 4, 10>() });
-// second buffer edge
-vproof!(c14_reader_edge_1026, 520, { reader_edge::<1026, 1022, 3, 1060>() });
+vproof!(c14_reader_3, 8, { reader_case::<3, 8>() });
+vproof!(c14_reader_4, 8, { reader_case::<4, 10>() });
+vproof!(c14_reader_5, 8, { reader_case::<5, 12>() });
